@@ -70,7 +70,18 @@ def prior_content(rng, st, which):
         # classic Mac line endings and more than one header window of text
         return "".join(f"K{i} code line of a long CR-only file\r" for i in range(160)), set(), set()
     lines = ["SPDX-FileCopyrightText: 2002 Own Earlier", "SPDX-FileContributor: Earlier Contributor", "", "SPDX-License-Identifier: ISC"]
-    return trees.comment_block(st, lines) + "\n\nK1 code\n", {"SPDX-FileCopyrightText: 2002 Own Earlier"}, {"ISC"}
+    own = trees.comment_block(st, lines)
+    if which.startswith("ignoreblock"):
+        # a commented ignore block (documentation, a test fixture) at the top: what is in it is nobody's information, neither
+        # before nor after annotate, and annotate's header must end up where the linter reads it
+        blk = trees.comment_block(st, ["REUSE-IgnoreStart", "SPDX-License-Identifier: GPL-3.0-only", "SPDX-FileCopyrightText: 1999 Ignored Person",
+                                       "REUSE-IgnoreEnd"], multi=rng.random() < 0.3)
+        if which == "ignoreblock":
+            return blk + "\n\nK1 code\n", set(), set()
+        if which == "ignoreblock+own":
+            return blk + "\n\n" + own + "\n\nK1 code\n", {"SPDX-FileCopyrightText: 2002 Own Earlier"}, {"ISC"}
+        return own + "\n\n" + blk + "\n\nK1 code\n", {"SPDX-FileCopyrightText: 2002 Own Earlier"}, {"ISC"}
+    return own + "\n\nK1 code\n", {"SPDX-FileCopyrightText: 2002 Own Earlier"}, {"ISC"}
 
 
 def one(res, ctx, root, rng, t, forced_style, idx, sample=False):
@@ -83,13 +94,13 @@ def one(res, ctx, root, rng, t, forced_style, idx, sample=False):
     f = d / fname
     binary = t is not None and rng.random() < 0.08
     uncomm = t is not None and (t["uncommentable"] or t["empty"])
-    which = rng.choice(["empty", "code", "foreign", "own", "own", "longcr"]) if st is not None and not uncomm else rng.choice(["empty", "code"])
+    which = rng.choice(["empty", "code", "foreign", "own", "own", "longcr", "ignoreblock", "ignoreblock+own", "own+ignoreblock"]) if st is not None and not uncomm else rng.choice(["empty", "code"])
     if binary:
         f.write_bytes(trees.BINARY_BLOB)
         prev_c, prev_l = set(), set()
     else:
         body, prev_c, prev_l = prior_content(rng, st, which) if st else (rng.choice(["", "K1 code\n"]), set(), set())
-        if (uncomm or t is None and not forced_style) and which in ("foreign", "own"):
+        if (uncomm or t is None and not forced_style) and which in ("foreign", "own", "ignoreblock", "ignoreblock+own", "own+ignoreblock"):
             body, prev_c, prev_l = "K1 code\n", set(), set()
         with open(f, "w", encoding="utf-8", newline="") as fp:
             fp.write(body)
